@@ -256,41 +256,67 @@ def stringlistFn (s : PState) (k : TokKind) (text : Bytes) : FnResult :=
       | .ok (true, s2, _) => complThen { s2 with cstate := .arguments } true false
   | _ => .ret false s false
 
+/-- `self.__curcommand.check_next_arg(t, v)` as the result of a state function -/
+def offer (s : PState) (t : ArgType) (v : AVal) : FnResult :=
+  match curCheck s t v with
+  | .error e => ofCmdErr false e
+  | .ok (b, s', _) => .ret b s' false
+
+/-- `{`, `,` or `)` where an argument could follow: a command with a non-deterministic argument
+    order re-assigns what it has got and the token is delivered again -/
+def tryReassign (s : PState) : FnResult :=
+  match s.stack with
+  | [] => .crash "AttributeError: NoneType"
+  | f :: _ =>
+    if f.d.nonDet then
+      match reassign f with
+      | none => .ret false s false
+      | some f' => .ret true (withTop s f') true
+    else .ret false s false
+
+/-- `[`: the list state is entered -/
+def openList (s : PState) : PState :=
+  { s with brackets := .right_bracket :: s.brackets, cstate := .stringlist, curlist := [], expected := some [.string] }
+
 /-- `__argument` -/
 def argumentFn (s : PState) (k : TokKind) (text : Bytes) : FnResult :=
   match k with
-  | .string | .multiline =>
-    if !Utf8.valid text then .err .decodeError false else
-    match curCheck s .string (.str text) with
-    | .error e => ofCmdErr false e
-    | .ok (b, s', _) => .ret b s' false
-  | .number =>
-    match curCheck s .number (.str text) with
-    | .error e => ofCmdErr false e
-    | .ok (b, s', _) => .ret b s' false
-  | .tag =>
-    match curCheck s .tag (.str text) with
-    | .error e => ofCmdErr false e
-    | .ok (b, s', _) => .ret b s' false
-  | .left_bracket =>
-    .ret true { s with brackets := .right_bracket :: s.brackets, cstate := .stringlist,
-                       curlist := [], expected := some [.string] } false
-  | .left_cbracket | .comma | .right_parenthesis =>
-    match s.stack with
-    | [] => .crash "AttributeError: NoneType"
-    | f :: _ =>
-      if f.d.nonDet then
-        match reassign f with
-        | none => .ret false s false
-        | some f' => .ret true (withTop s f') true
-      else .ret false s false
+  | .string | .multiline => if !Utf8.valid text then .err .decodeError false else offer s .string (.str text)
+  | .number => offer s .number (.str text)
+  | .tag => offer s .tag (.str text)
+  | .left_bracket => .ret true (openList s) false
+  | .left_cbracket | .comma | .right_parenthesis => tryReassign s
   | _ => .ret false s false
 
-/-- `if self.__argument(ttype, tvalue): return self.__check_command_completion(testsemicolon=False)` -/
-def argThenCompl (s : PState) (k : TokKind) (text : Bytes) : FnResult :=
-  match argumentFn s k text with
+/-- `if self.__argument(...): return self.__check_command_completion(testsemicolon=False)` -/
+def thenCompl (r : FnResult) : FnResult :=
+  match r with
   | .ret true s' rew => complThen s' false rew
   | r => r
+
+def argThenCompl (s : PState) (k : TokKind) (text : Bytes) : FnResult := thenCompl (argumentFn s k text)
+
+/-- an identifier among the arguments: a test, pushed as the new current command -/
+def pushTest (T : Table) (s : PState) (text : Bytes) : FnResult :=
+  match getCommand T s.loaded text with
+  | .error e => .err e false
+  | .ok d =>
+    if d.kind != .test then .err (.expectedTest d.name) false else
+    match curCheck s .test (.test (.mk d.name [] [] [] [])) with
+    | .error e => ofCmdErr false e
+    | .ok (false, s1, _) => .ret false s1 false
+    | .ok (true, s1, pl) =>
+      complThen { s1 with expected := d.expectedFirst,
+                          stack := { d := d, attach := .place pl } :: s1.stack } false false
+
+/-- `)` closing a test list -/
+def closeParen (s : PState) : FnResult :=
+  match popBracket s .right_parenthesis with
+  | none => .err .closingBracket false
+  | some s1 =>
+    match up s1 with
+    | .error w => .crash w
+    | .ok s2 => .ret true s2 false
 
 /-- `__arguments` -/
 def argumentsFn (T : Table) (s : PState) (k : TokKind) (text : Bytes) : FnResult :=
@@ -298,39 +324,17 @@ def argumentsFn (T : Table) (s : PState) (k : TokKind) (text : Bytes) : FnResult
   | [] => .crash "AttributeError: NoneType (arguments without current command)"
   | f :: _ =>
     match k with
-    | .identifier =>
-      match getCommand T s.loaded text with
-      | .error e => .err e false
-      | .ok d =>
-        if d.kind != .test then .err (.expectedTest d.name) false else
-        let placeholder : Node := .mk d.name [] [] [] []
-        match curCheck s .test (.test placeholder) with
-        | .error e => ofCmdErr false e
-        | .ok (false, s1, _) => .ret false s1 false
-        | .ok (true, s1, pl) =>
-          let s2 := { s1 with expected := d.expectedFirst,
-                              stack := { d := d, attach := .place pl } :: s1.stack }
-          complThen s2 false false
+    | .identifier => pushTest T s text
     | .left_parenthesis =>
       if f.d.variableArgs then
         .ret true { s with brackets := .right_parenthesis :: s.brackets,
                            expected := some [.identifier] } false
-      else
-        argThenCompl s k text
+      else argThenCompl s k text
     | .comma =>
       if f.d.variableArgs then .ret true { s with expected := some [.identifier] } false
-      else
-        argThenCompl s k text
+      else argThenCompl s k text
     | .right_parenthesis =>
-      if f.d.nonDet then
-        argThenCompl s k text
-      else
-      match popBracket s k with
-      | none => .err .closingBracket false
-      | some s1 =>
-        match up s1 with
-        | .error w => .crash w
-        | .ok s2 => .ret true s2 false
+      if f.d.nonDet then argThenCompl s k text else closeParen s
     | _ => argThenCompl s k text
 
 def lastName (l : List Node) : Option Bytes := (l.getLast?).map Node.name
